@@ -19,8 +19,10 @@ Transcribed (file:lines of /repo/lena):
 * `Slice._run_negative_islice` flow/iterators.py:223-301        → `negG`
 * `Count.run`                flow/elements.py:74-106            → `countG`
 * `Split.run`                core/split.py:280-417 (block processing from `Lena.C03`) → `splitG`
+* `Split.__init__` (effective `bufsize`, `_contains_cache`) core/split.py:74-85,252-260 → `effBufsize`
 * `Sequence.run`             core/sequence.py:67-77             → `seqRun`
-  (`Source.__call__`, core/source.py: `self._tail.run(first())`, is `seqRun` on the flow `first()`)
+  (`Source.__call__`, core/source.py: `self._tail.run(flow)` with `flow = first()` for a callable and
+  `flow = first` itself for an iterable — also for a one-pass iterator object —, is `seqRun` on that flow)
 and the pieces of `FillComputeSeq`/`FillSeq`/`FillInto` (`fillChain`: callables, `Filter.fill_into`,
 `Slice.fill_into`, `Count.fill_into`) that decide when a fill/compute branch of a `Split` raises
 `LenaStopFill`; `Source` branches of a `Split` (`srcOps`); sequence-type branches keep the state of
@@ -731,6 +733,39 @@ def prefixOf (f : Nat → α) (n : Nat) : List α := (List.range n).map f
 
 
 end generic
+
+/-! ## `Split.__init__`: the effective `bufsize` (core/split.py:74-85, 252-260)
+
+A sequence-type branch that contains a `Cache` must see the whole flow at once, so `Split.__init__`
+replaces a finite `bufsize` by `None`.  `_contains_cache` walks the element tree: a `Cache`
+(`is_cache`), the sequences of a nested `Split` (`_seqs`), the elements of a `LenaSequence` or of a
+`RunIf` (`_seq`).  The `bufsize` of a nested `Split` plays no role. -/
+
+/-- an element as `_contains_cache` sees it -/
+inductive CTree where
+  | cache
+  | leaf
+  /-- an object with `_seq`: a `LenaSequence`, a `RunIf` -/
+  | seq (els : List CTree)
+  /-- a `LenaSplit` with its `_seqs` -/
+  | split (seqs : List CTree)
+
+mutual
+/-- `_contains_cache(seq)` -/
+def containsCache : CTree → Bool
+  | .cache => true
+  | .leaf => false
+  | .seq els => anyCache els
+  | .split seqs => anyCache seqs
+def anyCache : List CTree → Bool
+  | [] => false
+  | t :: r => containsCache t || anyCache r
+end
+
+/-- `self._bufsize` after `Split.__init__`: `brs` are the converted sequences with their types -/
+def effBufsize (bufsize : Option Nat) (brs : List (Lena.C03.Kind × CTree)) : Option Nat :=
+  if bufsize.isSome && brs.any (fun b => b.1 == Lena.C03.Kind.sequence && containsCache b.2) then none
+  else bufsize
 
 /-! ## the concrete vocabulary of the harness -/
 
